@@ -36,7 +36,7 @@ Proof. vm_compute. repeat split; reflexivity. Qed.
 (* the model configuration read from the source *)
 Definition src_cfg : cfg :=
   {| c_guard_q := SrcFacts.c17_guard_queues; c_guard_tb := SrcFacts.c17_guard_tbufs;
-     c_recheck := SrcFacts.c17_recheck_per_logger; c_flag_late := SrcFacts.c17_flag_after_erase_and_prune;
+     c_recheck := SrcFacts.c17_recheck_per_logger; c_flag_late := SrcFacts.c17_flag_after_erase;
      c_prune := SrcFacts.c17_prune_after_erase; c_get_valid := SrcFacts.c17_get_checks_valid |}.
 
 Lemma src_cfg_good : good src_cfg = true.
